@@ -22,7 +22,7 @@ REQUIRED_REACH = ["Circle._contains", "CircleBoundary._contains", "Parallelogram
                   "Sphere._contains", "SphereBoundary._contains", "ShapelyPolygon._contains", "ShapelyBoundary._contains",
                   "UnionDomain._contains", "CutDomain._contains", "IntersectionDomain._contains", "ProductDomain._contains",
                   "UnionBoundaryDomain._contains", "CutBoundaryDomain._contains", "IntersectionBoundaryDomain._contains",
-                  "Translate._contains", "Rotate._contains"]
+                  "Translate._contains", "Rotate._contains", "TrimeshPolyhedron._contains", "TrimeshBoundary._contains"]
 MIN_NONTRIVIAL = 40
 ASSUMPTIONS = ["agreement judged only where |twin level| >= 1e-3 L (the property's 'small tolerance')",
                "shapes within the conditioning regime of DESIGN.md 3.1"]
